@@ -34,12 +34,14 @@ Drift(ok, what) == IF ok THEN TRUE ELSE PrintT(<< "DRIFT", l, what >>)
 
 \* Vacuity guard: tallies of how many events actually exercised a clause (registers 11..14; the
 \* meaning of each is stated by the trace spec that uses it).  Needs -workers 1.
-TallyInit == TLCSet(11, 0) /\ TLCSet(12, 0) /\ TLCSet(13, 0) /\ TLCSet(14, 0)
+TallyInit == TLCSet(11, 0) /\ TLCSet(12, 0) /\ TLCSet(13, 0) /\ TLCSet(14, 0) /\ TLCSet(15, 0)
+\* register 15: the worst observed error as a percentage of the tolerance it was allowed (headroom statistic)
+TrackMax(i, v) == TLCSet(i, IF v > TLCGet(i) THEN v ELSE TLCGet(i))
 Tally(i, cond) == cond => TLCSet(i, TLCGet(i) + 1)
 
 \* one state per consumed line plus the initial state
 AllConsumed ==
     LET d == TLCGet("stats").diameter
-    IN  IF d = Len(Rec) + 1 THEN PrintT(<< "ACCEPTED", Len(Rec) >>) /\ PrintT(<< "TALLY", TLCGet(11), TLCGet(12), TLCGet(13), TLCGet(14) >>)
+    IN  IF d = Len(Rec) + 1 THEN PrintT(<< "ACCEPTED", Len(Rec) >>) /\ PrintT(<< "TALLY", TLCGet(11), TLCGet(12), TLCGet(13), TLCGet(14) >>) /\ PrintT(<< "HEADROOM", TLCGet(15) >>)
         ELSE PrintT(<< "REJECTED-AT", d >>) /\ FALSE
 =============================================================================
